@@ -80,7 +80,13 @@ def run(ctx, config='rel-all'):
         fn = arena.short(b['id'])
         fr = [e for e in r.events if e.kind == 'call' and e.callee and e.callee.endswith('::from_raw')]
         if not fr:
-            ctx.violation('R1', fn, 'no-from_raw', 'downcast never rebuilds a Box', b.get('span'))
+            # rebuilt without from_raw (`Box(&mut *p.cast())`): every Ok return must lie under the true edge of is::<T>()
+            oks0 = [(t, f) for t, f in arena.alternatives(I, r.ret, set(r.ret_state.facts) if r.ret_state else set()) if t[0] == 'agg' and t[2] == 'Ok']
+            isg = lambda f: f[0] == 'true' and isinstance(f[1], tuple) and f[1] and f[1][0] == 'call' and (f[1][1].endswith('::is') or '::is' in f[1][1])
+            if oks0 and all(any(isg(f) for f in fs) for _, fs in oks0):
+                ctx.ok('R1', '%s: the box is re-typed only under is::<T>() == true' % fn, 'must-fact on every Ok return alternative')
+            else:
+                ctx.violation('R1', fn, 'no-from_raw', 'downcast never rebuilds a Box under the true edge of is::<T>()', b.get('span'))
         for e in fr:
             gated = any(f[0] == 'true' and f[1][0] == 'call' and (f[1][1].endswith('::is') or '::is' in f[1][1]) for f in e.state.facts)
             if gated:
@@ -187,6 +193,16 @@ def run(ctx, config='rel-all'):
             n5 += 1
             al = [e for e in r.events if e.kind == 'call' and e.is_own() and (e.callee or '').endswith('::alloc')]
             okv = len(al) == 1 and al[0].args == [('param', 2), ('param', 1)] and r.ret is not None and (al[0].ret in subterms(r.ret)) and not normal_drops(b, I, r)
+            if not okv and not al:
+                # Bump::alloc spelled out: one reservation with Layout::new::<T>(), x written into it exactly once, the box holds that slot
+                rl = [e for e in r.events if e.kind == 'call' and e.is_own() and (e.callee or '').split('::')[-1] in ('alloc_layout', 'try_alloc_layout') and 'Bump' in (e.callee or '')]
+                wr = [e for e in r.events if e.kind == 'call' and e.is_own() and e.callee == 'core::ptr::write']
+                okv = len(rl) == 1 and rl[0].args[0] == ('param', 2) and 'layout_new' in repr(rl[0].args[1]) or False
+                if len(rl) == 1 and rl[0].args[0] == ('param', 2):
+                    lay = rl[0].args[1]
+                    lay_ok = (lay[0] == 'layout' and 'sizeof(T)' in show(lay) and 'alignof(T)' in show(lay)) or 'Layout::new' in repr(lay) or 'layout_new' in repr(lay)
+                    okv = lay_ok and len(wr) == 1 and wr[0].args[0] == rl[0].ret and wr[0].args[1] == ('param', 1) and r.ret is not None and rl[0].ret in subterms(r.ret) \
+                        and r.events.index(rl[0]) < r.events.index(wr[0]) and not normal_drops(b, I, r)
             if not okv and name != 'new_in':
                 # built on the checked constructor instead of allocating itself
                 ni = [e for e in r.events if e.kind == 'call' and e.is_own() and (e.callee or '').endswith('Box::<\'a, T>::new_in')]
